@@ -170,7 +170,10 @@ def main():
                 os.chdir(step["dir"])
                 try:
                     t = CommandTester(Application().find("init"))
-                    t.execute(step["options"])
+                    if step.get("inputs") is not None:
+                        t.execute(step["options"], inputs=step["inputs"])      # answers to the questions the command asks
+                    else:
+                        t.execute(step["options"])
                     out.append({"tag": step.get("tag"), "hash": tree_hash(Path(step["dir"]))[0], "per_file": file_hashes(Path(step["dir"])),
                                 "toml": (Path(step["dir"]) / "naunet_config.toml").read_text()})
                 except BaseException as e:
